@@ -443,6 +443,13 @@ def run(ctx):
             marks = [c.block for c in cc.calls(MARK_BAD)] + [blk for blk, i, st in cc.assigns() if is_bad_write(st)]
             errs = [blk for blk, what, via in err_points(cc)]
             wit = cc.uncrossed_path([d for _, d in Tc], rets, blocks=marks + errs)
+            # nothing is sent while the server is in the COPY sub-protocol: it would not be executed but read as the protocol
+            # violation that ends the COPY (ErrorResponse, which also clears in_copy_mode), so the test must come first
+            qs = [c.block for c in cc.calls("pgcat::server::Server::query", "pgcat::server::Server::send")]
+            w0 = cc.uncrossed_path([0], qs, edges=set(Fc) | {e for e in field_bool_edges(cc, "in_copy_mode", csw)[1]}) if qs else None
+            r6.check(w0 is None, "copy-mode-tested-before-any-query", "checkin_cleanup sends a query only where in_copy_mode() was false",
+                     "checkin_cleanup can send its ROLLBACK / RESET while the connection is in COPY mode: the server does not execute the text, it answers ErrorResponse (which clears in_copy_mode) and ReadyForQuery, "
+                     "the dirty marks are dropped and the connection is reused with the previous client's settings (or inside its failed transaction)", "pgcat::server::Server::checkin_cleanup", w0 and cc.describe_path(w0))
             r6.check(wit is None, "copy-mode=>bad", "in_copy_mode()==true at check-in leads to mark_bad / Err",
                      "checkin_cleanup returns Ok with the connection still in COPY mode (only a warning is logged): the next client inherits a connection that expects CopyData",
                      "pgcat::server::Server::checkin_cleanup", wit and cc.describe_path(wit))
